@@ -147,7 +147,12 @@ class BuildDirs:
                 self._build_dir_counts[norm_cased_parent] = count + 1
                 if count > 0:
                     break
-                if parent in created_dirs_set:
+                if (parent in created_dirs_set or
+                        norm_cased_parent in self._error_created_dirs):
+                    # The second case: another thread created the directory
+                    # during this build and virtually removed it again after
+                    # the caller had seen it. It is still present in the real
+                    # file system, and we are virtually recreating it.
                     self._created_dirs_map[norm_cased_parent] = parent
                     self._error_created_dirs.discard(norm_cased_parent)
                     self._removed_files.discard(norm_cased_parent)
@@ -155,6 +160,19 @@ class BuildDirs:
 
                 prev_parent = parent
                 parent = os.path.dirname(parent)
+
+            # Another thread may have reserved some of the directories in
+            # created_dirs after we created them in the real file system, but
+            # before this call. That thread regarded them as preexisting, so
+            # nobody has recorded that the current build created them.
+            for dir_ in created_dirs:
+                norm_cased_dir = os.path.normcase(dir_)
+                if (norm_cased_dir in self._build_dir_counts and
+                        norm_cased_dir not in self._created_dirs_map):
+                    self._created_dirs_map[norm_cased_dir] = dir_
+                    self._error_created_dirs.discard(norm_cased_dir)
+                    self._removed_files.discard(norm_cased_dir)
+                    locked_created_dirs.append(dir_)
         return locked_created_dirs
 
     def error_building_file(self, filename):
